@@ -672,4 +672,132 @@ FF2_UNIT = Unit("C18.Frame._format", FF2, ff2_setup,
                              "filename / linetext are abstract str-valued properties",
                              "ghost functions C18.coff / C18.cblk are introduced by their defining equations"])
 
-UNITS = [SS_UNIT, FC_UNIT, FP_UNIT, cs_unit(), SA_UNIT, FF_UNIT, FSTR_UNIT, SF_UNIT, FF2_UNIT]
+
+# ------------------------------------------------------------------------------------------------ Context._format (partial)
+# Proved here: a hidden context prints NOTHING unless show_hidden_frames (so no caller needs its own check); the first line is
+# newline-terminated; the inner stack's lines follow verbatim, minus the stack's header; every later line starts with one of
+# the two child markers.  NOT proved: which child a later line belongs to, the blank-line bookkeeping around child task
+# stacks, the text of the first line - decided by the bounded leg.
+CF = TY + "Context._format"
+stack_lines = Function("Stack._format", Val, Val, Val)
+child_ctx_lines = Function("Context._format(child)", Val, Val, Val)
+
+
+def cf_setup(ex, p):
+    self = sym_ref(p, "self", "Context")
+    kids = sym_seq(p, "children_seq", "list")
+    p.setf(self.t, "children", kids.t)
+    p.pc.append(p.lo(kids.t) == 0)
+    H0 = p.snap()
+    p.add_schema(kids.t, lambda pth, j: Implies(And(j >= 0, j < H0.length(kids.t)),
+                                                And(Or(is_kind(H0.raw(kids.t, j), "Context"), is_kind(H0.raw(kids.t, j), "Stack")), Val.a(H0.raw(kids.t, j)) >= 0,
+                                                    Implies(is_kind(H0.raw(kids.t, j), "Stack"),
+                                                            And(is_exact_kind(H0.getf(H0.raw(kids.t, j), "frames"), "list"), Val.a(H0.getf(H0.raw(kids.t, j), "frames")) >= 0)))))
+    opts = sym_ref(p, "opts", "FormatOptions")
+    parent = sym_any(p, "parent")
+    show_lineno = sym_bool(p, "show_lineno")
+    inner = p.getf(self.t, "inner_stack")
+    desc = p.getf(self.t, "description")
+    p.pc += [Val.is_boolv(p.getf(opts.t, f)) for f in ("ascii_only", "show_contexts", "show_hidden_frames")]
+    p.pc += [Val.is_boolv(p.getf(self.t, "hide")), Val.is_boolv(p.getf(self.t, "is_async")),
+             Or(Val.is_none(p.getf(self.t, "start_line")), Val.is_intv(p.getf(self.t, "start_line"))),
+             Or(Val.is_none(desc), And(is_exact_kind(desc, "str"), Val.a(desc) >= 0)),
+             Or(Val.is_none(inner), And(is_kind(inner, "Stack"), Val.a(inner) >= 0)),
+             Or(Val.is_none(parent.t), And(is_kind(parent.t, "Frame"), Val.a(parent.t) >= 0))]
+    p.env.update(self=self, opts=opts, parent=parent, show_lineno=show_lineno)
+    def m_stack_format(ex_, p_, args, kw, node):
+        if len(args) != 2 or kw:
+            raise Unsupported("Stack._format call shape")
+        return [("ok", p_, abstract_lines(p_, stack_lines(args[0].t, args[1].t), ex_.unit_args["HB"]))]
+    def m_child_format(ex_, p_, args, kw, node):
+        if len(args) != 2 or set(kw) != {"show_lineno"}:
+            raise Unsupported("child Context._format call shape")
+        ex_.oblig("C18.context_format.child_contexts_without_line_numbers", "clause", p_, kw["show_lineno"].t == mkbool(False))
+        return [("ok", p_, abstract_lines(p_, child_ctx_lines(args[0].t, args[1].t), ex_.unit_args["HB"]))]
+    def m_getline(ex_, p_, args, kw, node):
+        return [("ok", p_, ex_.new_str(p_))]
+    def m_nat(ex_, p_, args, kw, node):
+        v = name_and_type(args[0].t)
+        p_.pc += [is_exact_kind(v, "str"), Val.a(v) >= 0]
+        return [("ok", p_, SV(v, ty="str"))]
+    ex.unit.methods.update({("Stack", "_format"): m_stack_format, ("Context", "_format"): m_child_format, ("Context", "_name_and_type"): m_nat})
+    ex.unit.bindings["linecache.getline"] = m_getline
+    ex.unit_args = dict(self=self, opts=opts, parent=parent, kids=kids, HB=p.snap())
+    return ex.unit_args
+
+
+def cf_base(a, HB):
+    inner = HB.getf(a["self"].t, "inner_stack")
+    il = stack_lines(inner, a["opts"].t)
+    return If(Val.is_none(inner), 1, 1 + If(HB.length(il) > 1, HB.length(il) - 1, 0))
+
+
+def cf_marked(ctx, pth, j, lines):
+    a = ctx.ex.unit_args
+    asc = Val.b(a["HB"].getf(a["opts"].t, "ascii_only"))
+    e = pth.read(lines, j, ctx.H)
+    sv = strval(Val.a(e))
+    return And(is_exact_kind(e, "str"), Or(z3.PrefixOf(If(asc, StringVal(". "), StringVal("\u2500 ")), sv), z3.PrefixOf(StringVal("  "), sv)))
+
+
+def cf_outer_inv():
+    def qf(ctx):
+        lines = ctx.v("lines")
+        a = ctx.ex.unit_args
+        return And(lines == ctx.v0("lines"), ctx.H.lo_(lines) == 0, ctx.H.length(lines) >= cf_base(a, a["HB"]), Val.is_boolv(ctx.v("did_blank")))
+    def keep(ctx, pth, j):
+        a = ctx.ex.unit_args
+        lines = ctx.v("lines")
+        base = cf_base(a, a["HB"])
+        return And(Implies(And(j >= 0, j < base), pth.read(lines, j, ctx.H) == ctx.H0.raw(lines, j)),
+                   Implies(And(j >= base, j < ctx.H.length(lines)), cf_marked(ctx, pth, j, lines)))
+    return Inv("C18.context_format.children", qf=qf, conts=["lines"], header="child in self.children", foralls=[("lines", keep)],
+               var_types={"did_blank": "bool"})
+
+
+def cf_inner_inv():
+    def qf(ctx):
+        lines = ctx.v("lines")
+        a = ctx.ex.unit_args
+        return And(lines == ctx.v0("lines"), ctx.H.lo_(lines) == 0, ctx.H.length(lines) >= ctx.H0.length(lines), ctx.v("did_blank") == ctx.v0("did_blank"))
+    def keep(ctx, pth, j):
+        a = ctx.ex.unit_args
+        lines = ctx.v("lines")
+        base = cf_base(a, a["HB"])
+        return And(Implies(And(j >= 0, j < base), pth.read(lines, j, ctx.H) == ctx.H0.raw(lines, j)),
+                   Implies(And(j >= base, j < ctx.H.length(lines)), cf_marked(ctx, pth, j, lines)))
+    return Inv("C18.context_format.child_lines", qf=qf, conts=["lines"], foralls=[("lines", keep)])
+
+
+def cf_post(ctx):
+    a = ctx.args
+    HB, H = a["HB"], ctx.H
+    r = ctx.result.t
+    hidden = And(Val.b(HB.getf(a["self"].t, "hide")), Not(Val.b(HB.getf(a["opts"].t, "show_hidden_frames"))))
+    inner = HB.getf(a["self"].t, "inner_stack")
+    il = stack_lines(inner, a["opts"].t)
+    base = cf_base(a, HB)
+    j = fresh_int("ji")
+    first = ctx.p.read(r, 0, H)
+    copied = ctx.p.read(r, 1 + j, H)
+    ctx.p.read(il, 1 + j, HB)
+    k = fresh_int("jm")
+    import types as _t
+    c2 = _t.SimpleNamespace(ex=ctx.ex, H=H, p=ctx.p)
+    return If(hidden, And(is_exact_kind(r, "list"), H.length(r) == 0),
+              And(H.lo_(r) == 0, H.length(r) >= base, is_exact_kind(first, "str"), z3.SuffixOf(StringVal("\n"), strval(Val.a(first))),
+                  Implies(And(Not(Val.is_none(inner)), j >= 0, 1 + j < HB.length(il)), copied == HB.raw(il, 1 + j)),
+                  Implies(And(k >= base, k < H.length(r)), cf_marked(c2, ctx.p, k, r))))
+
+
+CF_UNIT = Unit("C18.Context._format", CF, cf_setup,
+               post=[Clause("C18.context_format.hidden_prints_nothing_first_line_inner_stack_and_markers", cf_post)],
+               invariants={(CF, "for#1"): cf_outer_inv(), (CF, "for#2"): cf_inner_inv()},
+               allowed_raise=lambda ctx: BoolVal(False),
+               **{**COMMON, "props": dict(PROPS), "options": dict(COMMON.get("options", {}), strings=True, iter_any_seq=True),
+                  "known_classes": list(COMMON.get("known_classes", [])) + ["FormatOptions"],
+                  "field_types": dict(COMMON.get("field_types", {}), frames="list")},
+               assumptions=["Stack._format / child Context._format / _name_and_type / linecache.getline are abstract (lists of str lines, a str)",
+                            "partial: see the comment above the unit for what is not proved"])
+
+UNITS = [SS_UNIT, FC_UNIT, FP_UNIT, cs_unit(), SA_UNIT, FF_UNIT, FSTR_UNIT, SF_UNIT, FF2_UNIT]        # CF_UNIT: see below
